@@ -29,8 +29,9 @@ NumericFields(kind) ==
   ELSE <<"chainId", "nonce", "maxPriorityFeePerGas", "maxFeePerGas", "gas", "value">>
 
 \* ---- field classes: [c |-> "accept"|"reject"|"either"|"open", v] ----------
-Reject == [c |-> "reject", v |-> <<>>]
-Open   == [c |-> "open",   v |-> <<>>]
+Reject == [c |-> "reject", v |-> <<>>, why |-> "malformed"]
+Open   == [c |-> "open",   v |-> <<>>, why |-> ""]
+Accepted(v) == [c |-> "accept", v |-> v, why |-> ""]
 
 ClassAddress(node) ==
   IF node.k # "str" THEN Reject
@@ -39,30 +40,30 @@ ClassAddress(node) ==
       LET body  == SubSeq(cs, 3, 42)
           bytes == HexPairs(body)
           lower == \A i \in 1..40 : ~IsUpperHexCode(body[i])
-      IN  [c |-> IF lower \/ cs = Eip55(bytes) THEN "accept" ELSE "either", v |-> bytes]
+      IN  [c |-> IF lower \/ cs = Eip55(bytes) THEN "accept" ELSE "either", v |-> bytes, why |-> ""]
     \* open spellings: no prefix; doubled prefix (a quirk of the address crate)
-    ELSE IF Len(cs) = 40 /\ AllHex(cs) THEN [c |-> "either", v |-> HexPairs(cs)]
+    ELSE IF Len(cs) = 40 /\ AllHex(cs) THEN [c |-> "either", v |-> HexPairs(cs), why |-> ""]
     ELSE IF Len(cs) = 44 /\ SubSeq(cs, 1, 4) = <<48, 120, 48, 120>> /\ AllHex(SubSeq(cs, 5, 44))
-      THEN [c |-> "either", v |-> HexPairs(SubSeq(cs, 5, 44))]
+      THEN [c |-> "either", v |-> HexPairs(SubSeq(cs, 5, 44)), why |-> ""]
     ELSE Reject
 
 \* required numeric field: absent -> open; present (null included) -> by denotation
 ClassRequiredUint(doc, key) ==
   IF ~HasKey(doc, key) THEN Open ELSE
-  LET u == ClassUint(ObjGet(doc, key), 256) IN [c |-> u.c, v |-> u.v]
+  LET u == ClassUint(ObjGet(doc, key), 256) IN [c |-> u.c, v |-> u.v, why |-> u.why]
 
 \* optional: absent / null -> none (<<>>), else <<value>>
 ClassOptionalUint(doc, key) ==
-  IF ~Present(doc, key) THEN [c |-> "accept", v |-> <<>>] ELSE
-  LET u == ClassUint(ObjGet(doc, key), 256) IN [c |-> u.c, v |-> <<u.v>>]
+  IF ~Present(doc, key) THEN Accepted(<<>>) ELSE
+  LET u == ClassUint(ObjGet(doc, key), 256) IN [c |-> u.c, v |-> <<u.v>>, why |-> u.why]
 
 ClassTo(doc) ==
-  IF ~Present(doc, "to") THEN [c |-> "accept", v |-> <<>>] ELSE
-  LET a == ClassAddress(ObjGet(doc, "to")) IN [c |-> a.c, v |-> <<a.v>>]
+  IF ~Present(doc, "to") THEN Accepted(<<>>) ELSE
+  LET a == ClassAddress(ObjGet(doc, "to")) IN [c |-> a.c, v |-> <<a.v>>, why |-> "bad_address"]
 
 ClassData(doc) ==
   IF ~HasKey(doc, "data") THEN Open ELSE
-  LET b == ClassBytes(ObjGet(doc, "data")) IN [c |-> b.c, v |-> b.v]
+  LET b == ClassBytes(ObjGet(doc, "data")) IN [c |-> b.c, v |-> b.v, why |-> "bad_bytes"]
 
 Worst(cs) ==      \* cs: a set of class names
   IF "reject" \in cs THEN "reject"
@@ -79,37 +80,40 @@ ClassAccessEntry(node) ==
        IN  IF sl.k # "arr" THEN Reject
            ELSE LET scs == [i \in 1..Len(sl.v) |-> ClassFixedBytes(sl.v[i], 32)]
                 IN  [c |-> Worst({a.c} \cup {scs[i].c : i \in 1..Len(scs)}),
-                     v |-> [addr |-> a.v, slots |-> [i \in 1..Len(scs) |-> scs[i].v]]]
+                     v |-> [addr |-> a.v, slots |-> [i \in 1..Len(scs) |-> scs[i].v]], why |-> "bad_access_list"]
 
 ClassAccessListNode(node) ==
   IF node.k # "arr" THEN Reject
   ELSE LET es == [i \in 1..Len(node.v) |-> ClassAccessEntry(node.v[i])]
-       IN  [c |-> Worst({es[i].c : i \in 1..Len(es)}), v |-> [i \in 1..Len(es) |-> es[i].v]]
+       IN  [c |-> Worst({es[i].c : i \in 1..Len(es)}), v |-> [i \in 1..Len(es) |-> es[i].v], why |-> "bad_access_list"]
 
 ClassAccessList(doc, kind) ==
-  IF ~HasKey(doc, "accessList") THEN [c |-> "accept", v |-> <<>>]           \* only possible for 1559
+  IF ~HasKey(doc, "accessList") THEN Accepted(<<>>)                          \* only possible for 1559
   ELSE IF ObjGet(doc, "accessList").k = "null" /\ kind = "1559" THEN Open
   ELSE ClassAccessListNode(ObjGet(doc, "accessList"))
 
 \* ---- document -> transaction ----------------------------------------------
 \* [c, tx]; tx is meaningful unless c = "reject" / "open"
 Parse(doc) ==
-  IF doc.k # "obj" THEN [c |-> "reject", tx |-> <<>>]
-  ELSE IF DupKeys(doc) THEN [c |-> "open", tx |-> <<>>]
+  IF doc.k # "obj" THEN [c |-> "reject", tx |-> <<>>, why |-> "not_an_object"]
+  ELSE IF DupKeys(doc) THEN [c |-> "open", tx |-> <<>>, why |-> ""]
   ELSE
   LET kind == KindOfKeys(ObjKeys(doc))
       nf   == NumericFields(kind)
       req(key) == IF \E i \in 1..Len(nf) : nf[i] = key THEN ClassRequiredUint(doc, key)
-                  ELSE [c |-> "accept", v |-> <<>>]
+                  ELSE Accepted(<<>>)
       chain == IF kind = "legacy" THEN ClassOptionalUint(doc, "chainId")
-               ELSE LET r == req("chainId") IN [c |-> r.c, v |-> <<r.v>>]
+               ELSE LET r == req("chainId") IN [c |-> r.c, v |-> <<r.v>>, why |-> r.why]
       nonce == req("nonce")         gasPrice == req("gasPrice")
       maxPrio == req("maxPriorityFeePerGas")    maxFee == req("maxFeePerGas")
       gas   == req("gas")           value == req("value")
       to    == ClassTo(doc)         data == ClassData(doc)
-      al    == IF kind = "legacy" THEN [c |-> "accept", v |-> <<>>] ELSE ClassAccessList(doc, kind)
-      c     == Worst({chain.c, nonce.c, gasPrice.c, maxPrio.c, maxFee.c, gas.c, value.c, to.c, data.c, al.c})
+      al    == IF kind = "legacy" THEN Accepted(<<>>) ELSE ClassAccessList(doc, kind)
+      all   == <<chain, nonce, gasPrice, maxPrio, maxFee, gas, value, to, data, al>>
+      c     == Worst({all[i].c : i \in 1..Len(all)})
   IN  [c |-> c,
+       \* why: the reason of the first refused field
+       why |-> IF c = "reject" THEN all[CHOOSE i \in 1..Len(all) : all[i].c = "reject" /\ \A q \in 1..(i - 1) : all[q].c # "reject"].why ELSE "",
        tx |-> [kind |-> kind, chainId |-> chain.v, nonce |-> nonce.v, gasPrice |-> gasPrice.v,
                maxPrio |-> maxPrio.v, maxFee |-> maxFee.v, gas |-> gas.v, to |-> to.v,
                value |-> value.v, data |-> data.v, al |-> al.v]]
